@@ -293,7 +293,7 @@ func dmRandomHints(rng *fw.Rand) (shape int, min, max *[2]int) {
 var dmExhAlphabet = []rune{'1', '7', 'A', 'Z', 'a', 'z', ' ', '*', '>', '\r', '!', '^', 0x05, 0xE9}
 
 func c02(c *fw.Ctx) {
-	c.Rule("run-structured random Latin-1 strings over seven character classes (digits, C40-native, Text-native, X12 separators, EDIFACT punctuation, controls, 0x80-0xFF; run lengths 1-7), all strings of length <= 3 (thorough: <= 5) over a 14-symbol alphabet with one representative of every class, exact-fill families (Base-256 runs of every length, C40/Text/X12 triplets with 1-2 left-over characters), macro 05/06 envelopes, digit strings reaching each of the 30 sizes, shape and min/max hints; per case: dispatch-step bound (hook), writer result xor error, refusal rules from independent capacity bounds, codewords decoded by the independent ISO 16022 decoder and by the library parser, matrix path, sampled image path; distinct = distinct (text, hints)")
+	c.Rule("run-structured random Latin-1 strings over seven character classes (digits, C40-native, Text-native, X12 separators, EDIFACT punctuation, controls, 0x80-0xFF; run lengths 1-7), all strings of length <= 3 (thorough: <= 5) over a 14-symbol alphabet with one representative of every class, exact-fill families (Base-256 runs of every length, C40/Text/X12 triplets with 1-2 left-over characters), macro 05/06 envelopes and near misses (other format numbers, header or trailer alone, a damaged separator, text behind the trailer), digit strings reaching each of the 30 sizes, shape and min/max hints; per case: dispatch-step bound (hook), writer result xor error, refusal rules from independent capacity bounds, codewords decoded by the independent ISO 16022 decoder and by the library parser, matrix path, sampled image path; distinct = distinct (text, hints)")
 	c.Assume("must-succeed when the plain-ASCII cost is at most half the largest admissible capacity; must-fail when a per-character lower bound exceeds it or a rune > U+00FF occurs; between the bounds either outcome is accepted (DESIGN C02)")
 	// exhaustive short strings
 	maxLen := c.Pick(3, 5)
@@ -405,6 +405,23 @@ func c02(c *fw.Ctx) {
 				o.text = latin1String(hdr + "\x1e\x04") // empty body
 			}
 			c02One(r, o, "macro")
+			// near misses: an ISO 15434 envelope with another format number, a header without the
+			// trailer, a trailer without the header, a damaged separator - plain text, all of them
+			body := latin1Raw(dmRandomText(rng, 30))
+			var near string
+			switch rng.Intn(6) {
+			case 0, 1:
+				near = fmt.Sprintf("[)>\x1e%02d\x1d", []int{0, 1, 2, 3, 4, 7, 8, 9, 10, 12, 15, 50, 55, 60, 99}[rng.Intn(15)]) + body + "\x1e\x04"
+			case 2:
+				near = hdr + body
+			case 3:
+				near = body + "\x1e\x04"
+			case 4:
+				near = "[)>\x1e0" + string(rune('5'+rng.Intn(5))) + "\x1e" + body + "\x1e\x04"
+			default:
+				near = hdr + body + "\x1e\x04" + "x"
+			}
+			c02One(r, dmOpts{text: latin1String(near)}, "macro-near-miss")
 		})
 	}
 	// digit strings reaching every size, each shape
